@@ -40,7 +40,11 @@ func (s *Server) HandleBefore(
 		q := pctx.Req.Question[0]
 		qt := q.Qtype
 		host := aghnet.NormalizeDomain(q.Name)
-		if s.access.isBlockedHost(host, qt) {
+		s.serverLock.RLock()
+		isBlocked := s.access.isBlockedHost(host, qt)
+		s.serverLock.RUnlock()
+
+		if isBlocked {
 			log.Debug("access: request %s %s is in access blocklist", dns.Type(qt), host)
 
 			return s.preBlockedResponse(pctx)
